@@ -6,6 +6,7 @@ package main
 //
 // Transcript ops (model-compared, see lean/XlModel/Drv/C09.lean):
 //   ev <tok>*            the real evalInfixExp on an arbitrary token list (hook VerifC09EvalTokens)
+//   opn b m s c x<0|1>   opened (saved + zip-rewritten) workbook, cell evaluated 3x + fresh (see c09opn.go)
 //   cyc M e d0 d1 …      CalcCellValue on a reference graph with MaxCalcIterations = M (hook VerifC09CalcTrace)
 // Direct-oracle ops (not modelled; run in isolated worker processes, see c09worker.go):
 //   fn NAME k1 k2 …      =NAME(<kind k1>,<kind k2>,…) through CalcCellValue on the fixture workbook
@@ -577,8 +578,10 @@ func c09CycEval(M, entry int, cells []c09Cell) string {
 		val := a.Kind
 		if a.Kind == "num" {
 			x := math.Float64frombits(a.Bits)
-			if x == math.Trunc(x) && math.Abs(x) < 1e15 {
+			if x == math.Trunc(x) && math.Abs(x) <= 9007199254740992 {
 				val = strconv.FormatInt(int64(x), 10)
+			} else if x == math.Trunc(x) {
+				val = "big" // beyond 2^53 doubles and the model's exact integers part company: compared as a class
 			} else {
 				val = fmt.Sprintf("num:%016x", a.Bits)
 			}
@@ -779,6 +782,7 @@ func runC09(r *Run, rng *Rng, replay string) {
 	c09EvStream(r, rng)
 	c09CycStream(r, rng)
 	c09CycFlush(r)
+	c09OpnStream(r, rng, nil)
 	c09WorkerStreams(r, rng)
 	for _, s := range r.opsSample(6) {
 		r.Sample(s)
@@ -789,6 +793,7 @@ func c09Replay(r *Run, path string) {
 	f := c09EvFile()
 	defer f.Close()
 	var jobs []c09Job
+	var opnOps []string
 	for _, line := range readLines(path) {
 		line = strings.TrimSpace(line)
 		if line == "" || strings.HasPrefix(line, "#") {
@@ -804,6 +809,10 @@ func c09Replay(r *Run, path string) {
 			if M, e, cells, ok := c09ParseCyc(w); ok {
 				c09Cyc(r, M, e, cells, "replay")
 			}
+		case "opn":
+			if _, _, _, _, ok := c09OpnParse(w); ok {
+				opnOps = append(opnOps, line)
+			}
 		case "fn", "txt":
 			if j, ok := c09JobOfLine(line); ok {
 				jobs = append(jobs, j)
@@ -811,6 +820,9 @@ func c09Replay(r *Run, path string) {
 		}
 	}
 	c09CycFlush(r)
+	if len(opnOps) > 0 {
+		c09OpnStream(r, nil, opnOps)
+	}
 	if len(jobs) > 0 {
 		c09RunJobs(r, jobs, 1)
 	}
